@@ -5,6 +5,7 @@ import (
 	"encoding/binary"
 	"encoding/hex"
 	"fmt"
+	iofs "io/fs"
 	"os"
 	"os/exec"
 	"path/filepath"
@@ -410,11 +411,124 @@ func idBlkRun(n int, base, step uint32) (blocks int, back []uint32, ids []uint32
 	return
 }
 
+// e2eSqfsManyIDs: a workspace whose files have more than 16384 distinct owner ids, finalized and re-opened; every
+// file must report the uid and gid it had. hookRepro / hookMsg: what the function-level replay saw.
+func e2eSqfsManyIDs(c *hx.Ctx, r *hx.Rng, hookRepro bool, hookMsg string) {
+	id := "codec/sqfs-manyids"
+	known := func(e2eRepro bool, msg string) {
+		c.Known(tagIDWrap, hookRepro || e2eRepro, hookMsg+"; image: "+msg)
+	}
+	if !c.Want(id) {
+		known(false, "not run")
+		return
+	}
+	const nfiles = 8200
+	size := int64(64 << 20)
+	dev := memdev.New(size)
+	dev.KeepData = false
+	var f *squashfs.FileSystem
+	var err error
+	if p := safe(func() { f, err = squashfs.Create(dev, size, 0, 4096) }); p != "" || err != nil {
+		c.Note("%s: Create failed: %v %s", id, err, p)
+		known(false, "not run")
+		return
+	}
+	ws := f.Workspace()
+	defer os.RemoveAll(ws)
+	base := uint32(100000 + r.Intn(1<<20))
+	for i := 0; i < nfiles; i++ {
+		if i%100 == 0 {
+			os.Mkdir(filepath.Join(ws, fmt.Sprintf("d%03d", i/100)), 0o755)
+		}
+		full := filepath.Join(ws, fmt.Sprintf("d%03d", i/100), fmt.Sprintf("f%05d", i))
+		if e := os.WriteFile(full, nil, 0o644); e == nil {
+			e = os.Lchown(full, int(base)+2*i, int(base)+2*i+1)
+			if e != nil {
+				c.Note("%s: lchown: %v; skipped", id, e)
+				known(false, "not run")
+				return
+			}
+		}
+	}
+	desc := fmt.Sprintf("squashfs workspace d000/f00000..f%05d (100 files to a directory), file i owned by %d+2i:%d+2i+1 (%d distinct ids), Finalize, Read, ReadDir of every directory", nfiles-1, base, base, 2*nfiles+1)
+	if p := safe(func() {
+		err = f.Finalize(squashfs.FinalizeOptions{NoCompressInodes: true, NoCompressData: true, NoCompressFragments: true})
+	}); p != "" || err != nil {
+		c.Fail(id, "-", fmt.Sprintf("Finalize failed: %v %s", err, p), desc)
+		known(false, "Finalize failed")
+		return
+	}
+	wrong, seen, unreadable := 0, 0, 0
+	first := ""
+	pan := safe(func() {
+		re, e := squashfs.Read(dev, size, 0, 4096)
+		if e != nil {
+			wrong, first = nfiles, "Read: "+e.Error()
+			return
+		}
+		var des []iofs.DirEntry
+		for k := 0; k < (nfiles+99)/100; k++ {
+			ds, e := re.ReadDir(fmt.Sprintf("d%03d", k))
+			if e != nil && k > 0 && strings.Contains(e.Error(), "unable to read directory from table: error reading block at position") {
+				// C07's open defect sqfs-dir-startblock-index: listings beyond the first 8 KiB of the directory table cannot be
+				// read at all; those files are not judged here (the function-level replay covers their id indices)
+				unreadable++
+				seen += 100
+				if k == (nfiles+99)/100-1 && nfiles%100 != 0 {
+					seen += nfiles%100 - 100
+				}
+				continue
+			}
+			if e != nil {
+				if first == "" {
+					first = "ReadDir: " + e.Error()
+				}
+				continue
+			}
+			des = append(des, ds...)
+		}
+		for _, d := range des {
+			var i int
+			if _, e := fmt.Sscanf(d.Name(), "f%05d", &i); e != nil {
+				continue
+			}
+			seen++
+			fi, e := d.Info()
+			var st *squashfs.StatT
+			if e == nil {
+				st, _ = fi.Sys().(*squashfs.StatT)
+			}
+			if e != nil || st == nil || st.UID != base+uint32(2*i) || st.GID != base+uint32(2*i+1) {
+				wrong++
+				if first == "" {
+					first = fmt.Sprintf("%s: %v %+v", d.Name(), e, st)
+				}
+			}
+		}
+		wrong += nfiles - seen
+	})
+	switch {
+	case pan == "" && wrong == 0:
+		c.OK(id)
+		known(false, fmt.Sprintf("all files of the %d directories that can be listed report their owners (%d directories unreadable: C07 sqfs-dir-startblock-index)", (nfiles+99)/100-unreadable, unreadable))
+		c.StatN("sqfs-manyids-dirs-unreadable(C07 sqfs-dir-startblock-index)", unreadable)
+	case hookRepro:
+		c.Fail(id, tagIDWrap, fmt.Sprintf("%d of %d files do not report the owner they had (first: %s) %s", wrong, nfiles, first, pan), desc)
+		known(true, fmt.Sprintf("%d of %d files do not report their owners", wrong, nfiles))
+	default:
+		c.Fail(id, "-", fmt.Sprintf("%d of %d files do not report the owner they had (first: %s) %s", wrong, nfiles, first, pan), desc)
+		known(false, "owners wrong for another reason")
+	}
+	c.Stat("sqfs-manyids-files-checked")
+	c.Distinct(fmt.Sprintf("sqfs-manyids:%d", base))
+}
+
 func codecSqIDBlocks(c *hx.Ctx, r *hx.Rng) {
 	// which arithmetic the reader has: decided by what it does with 16385 ids (the Lean model has both)
 	_, probe, _, perr, ppan := idBlkRun(16385, 7, 3)
 	widen := perr == nil && ppan == "" && len(probe) == 16385
-	c.Known(tagIDWrap, !widen, fmt.Sprintf("16385 distinct ids written by writeIDTable (9 metadata blocks), readUidsGids returns %d ids (err=%v %s)", len(probe), perr, ppan))
+	// the listed finding's replay: here at function level, and through Finalize / Read / Stat (sqfs-manyids)
+	e2eSqfsManyIDs(c, r.Fork(), !widen, fmt.Sprintf("16385 distinct ids written by writeIDTable (9 metadata blocks), readUidsGids returns %d ids (err=%v %s)", len(probe), perr, ppan))
 	ns := []int{1, 2, 2047, 2048, 2049, 4096, 4097, 6000, 16383, 16384, 16385, 16386, 18432, 20000}
 	if c.Thorough() {
 		ns = append(ns, 24576, 32767, 32768, 32769, 40000, 49152, 65535)
